@@ -7,6 +7,7 @@ the resolution succeeds.  (With another factor only, the second look-up misses:
 known finding D2.)
 -/
 import QuantityModel.Proofs.RegistryTerm
+import QuantityModel.Proofs.TermKeep
 namespace QM
 
 theorem lookup_isSome_of_mem {β : Type} (l : List (Items × β)) (k : Items) (v : β)
@@ -53,12 +54,12 @@ theorem fixed_shape (env : Env) (hk : KeysNonneg env) (K : Items)
   rw [mem_atomsOf]; exact ⟨p.2, by unfold atomItems; exact List.mem_map_of_mem hp'⟩
 
 /-- **Completeness of the resolution.**  `K` is the key of a registered unit
-(`(K, w) ∈ termMap`), a constructed normal form with factor 1, and has the
+(`(K, w) ∈ termMap`), a normal form with factor 1, and has the
 exponents the term `t` denotes: then resolving `t` succeeds. -/
 theorem amntAndUnit_complete (r : RegState)
     (hd : DefsBaseOnly r.unitEnv) (hnc : BaseNoConv r.unitEnv)
     (t : Items) (ht : Clean t) (K : Items) (w : Nat) (hK : (K, w) ∈ r.termMap)
-    (hKnf : normalizedItems r.unitEnv K = K) (hKmk : mkTerm r.unitEnv K = K)
+    (hKnf : normalizedItems r.unitEnv K = K)
     (hK1 : numVal K = 1) (hsep : KeysSeparate r.unitEnv t K)
     (hexp : ∀ a, expOf a (expanded r.unitEnv t) = expOf a K) :
     r.amntAndUnit t ≠ none := by
@@ -66,6 +67,18 @@ theorem amntAndUnit_complete (r : RegState)
   set env := r.unitEnv with henv
   -- shape of the key
   obtain ⟨l', eK, nf', hat'⟩ := fixed_shape env hk K hKnf hK1
+  -- building a term from the key's items gives the key again
+  have hKmk : mkTerm env K = K := by
+    rw [eK]
+    apply mkTerm_fixed env hk l' nf'
+    have hb : ∀ p ∈ l', (env.info p.1).isBase = true := by
+      intro p hp
+      have hbo := normalizedItems_baseOnly env K hd
+      rw [hKnf, eK] at hbo
+      apply hbo p.1
+      rw [mem_atomsOf]; exact ⟨p.2, by unfold atomItems; exact List.mem_map_of_mem hp⟩
+    intro p hp q hq hne
+    exact hnc p.1 q.1 (hb p hp) (hb q hq) hne
   -- shape of the term's normal form
   obtain ⟨q, l, e, nf⟩ := reduceGeneral_shape env hk (iterNormalized env normFuel t)
   have hN : termNormalized env t = numPrefix q ++ atomItems l := by
